@@ -179,7 +179,7 @@ public:
   }
 
   GAccumulator& operator-=(const T& rhs) {
-    base_type::update(rhs);
+    base_type::getLocal() -= rhs;
     return *this;
   }
 };
